@@ -249,13 +249,15 @@ func (cr *caseRun) judge(mut int) (v verdict) {
 	}
 	r := cr.newRef(mut)
 	texts, ok, why := refTexts(r, cr.control, vals)
-	v.obs = cr.slipFormat()
 	if !ok {
+		// The definitions do not determine this call (it may not even terminate, e.g. an iteration
+		// whose body consumes nothing): slip is not run.
 		v.why = why
-	} else {
-		v.defined = true
-		v.want = texts[0]
+		return
 	}
+	v.obs = cr.slipFormat()
+	v.defined = true
+	v.want = texts[0]
 	o := v.obs
 	show := func() string {
 		var as []string
@@ -804,16 +806,17 @@ func exec(spec string) (res engine.Result) {
 	cr := &caseRun{control: control, args: args, env: env}
 	v := cr.judge(refMutNone)
 	res.Hit("family:" + fam)
+	if !v.defined {
+		res.Hit("undefined-by-the-definitions")
+		res.Outcome = "undefined: " + normMsg(v.why)
+		return
+	}
 	countShape(&res, cr, v)
 	switch {
 	case v.obs[0].err != nil:
 		res.Outcome = "err:" + v.obs[0].err.Class + ":" + normMsg(v.obs[0].err.Message)
 	default:
 		res.Outcome = v.obs[0].text
-	}
-	if !v.defined {
-		res.Hit("undefined-by-the-definitions")
-		res.Outcome = "undefined|" + res.Outcome
 	}
 	if v.variant {
 		res.Hit("accepted-through-a-variant-reading")
